@@ -1,3 +1,4 @@
 import Cgm.Lemmas.AuditCmd
 import Cgm.Props.C05
+import Cgm.Props.C05b
 #audit_namespace Cg.C05
